@@ -3,6 +3,8 @@ from ..rules import gr, tc, dar
 
 
 def check(ctx, rep):
+    from ..rules import shape as _shape
+    _shape.gr_10b(ctx, rep, ['parso/python/tree.py'])
     from ..rules import shape
     _n = shape.gr_10(ctx, rep, ['parso/python/tree.py'])
     rep.minimum('GR-10', 5)
